@@ -14,7 +14,7 @@ from ..sim.gen import D
 from .c16 import SIMPLE, TASKPOOL
 
 NB = 500
-FUNCS = ["quick", "quick", "gated", "gated", "boom", "not_async"]
+FUNCS = ["quick", "quick", "gated", "gated", "boom", "not_async", "alt", "alt"]
 GROUPS = ["G", "H", "apply-gated-group-0", "map-quick-group-0", "start-group-0", "start-group-1", "nope"]
 SHORT = {  # documented short options: first letter, upper case if taken (ControlParser.add_function_arg)
     "apply": {"args": "-a", "kwargs": "-k", "num": "-n", "group_name": "-g", "end_callback": "-e", "cancel_callback": "-c"},
@@ -34,7 +34,7 @@ def gen_value(d: D, cmd: str, pname: str) -> Any:
     if pname == "func":
         return ["path", "vt.ctl.hmod." + d.pick(FUNCS)]
     if pname in ("end_callback", "cancel_callback"):
-        return ["path", "vt.ctl.hmod." + d.pick(["ecb", "accb"])]
+        return ["path", "vt.ctl.hmod." + d.pick(["ecb", "accb", "altcb"])]
     if pname == "args":
         return ["lit", tuple(d.i(0, 9) for _ in range(d.i(0, 2)))]
     if pname == "kwargs":
@@ -77,7 +77,10 @@ def decode(data: bytes) -> dict:
             case["items"].append({"t": "gate", "k": d.i(0, 5)})
             continue
         if r == 2:
-            case["items"].append({"t": "tick", "k": d.i(1, 3)})
+            if d.p(0.5):
+                case["items"].append({"t": "rebind", "k": d.i(0, 3)})
+            else:
+                case["items"].append({"t": "tick", "k": d.i(1, 3)})
             continue
         cmd = d.pick(heavy) if d.p(0.6) else d.pick(names)
         vals: Dict[str, Any] = {}
@@ -265,6 +268,8 @@ class C17Engine(Engine):
                             q.put_nowait(it)
                     elif it["t"] == "gate":
                         hmod.open_gate(it["k"])
+                    elif it["t"] == "rebind":
+                        hmod.rebind(it["k"])
                     else:
                         for _ in range(it["k"]):
                             await asyncio.sleep(0)
